@@ -28,7 +28,7 @@ func init() {
 			"Non-trivial = graphs where some module is selected above the version the target requires (an upgrade through a dependency) or that contain a cycle.",
 		Assumptions: []string{"oracle (a): breadth-first reachability over requirement edges from every listed version, selected = maximum reached version per path (the definition of MVS); oracle (c): semver.org section 11 with math/big numeric identifiers, plus this package's documented v-prefix and vMAJOR[.MINOR] shorthands"},
 		Run:         run, Replay: replay,
-		RequireOutcomes: []string{"graph:ok", "semver:pair-ok"},
+		RequireOutcomes: []string{"graph:ok", "semver:pair-ok", "schedule:ok"},
 		BudgetQuick:     200, BudgetThorough: 1500,
 	})
 }
@@ -143,6 +143,10 @@ func run(r *core.Run) {
 		return true
 	}
 	versions := []string{"v0.1.0", "v0.2.0", "v0.3.0"}
+	// (b) schedules first: the sequential families below run the traversal on
+	// real goroutines (shims in pass-through mode), whose stragglers must not
+	// meet an active scheduler
+	runSchedules(r)
 	// F1
 	r.Section("graphs F1: 2 modules x 3 versions")
 	nodes := []string{}
@@ -272,6 +276,10 @@ func replay(r *core.Run, raw json.RawMessage) {
 	var c kase
 	if err := json.Unmarshal(raw, &c); err != nil {
 		r.EngineError(err.Error())
+		return
+	}
+	if c.Kind == "sched" || c.Kind == "work" {
+		r.EngineError("schedule cases are re-explored by the run; replay by choice sequence is printed in the violation detail")
 		return
 	}
 	if c.Kind == "semver" {
